@@ -66,6 +66,7 @@ type decWalker struct {
 	atStart bool         // cursor is at the payload start (unchanged since the length guards)
 	effects []string
 	probs   []string
+	alloc32 []string // allocations sized by a raw 64-bit length whose guards are on its int conversion
 }
 
 func (w *decWalker) is(x ast.Expr, o types.Object) bool {
@@ -165,6 +166,9 @@ func (w *decWalker) term(x ast.Expr) (string, error) {
 				if c, ok := ast.Unparen(be.X).(*ast.CallExpr); ok {
 					if b, ok := core.CalleeObj(info, c).(*types.Builtin); ok && b.Name() == "len" {
 						if b2, err := w.term(c.Args[0]); err == nil && b2 == base {
+							if !strings.HasPrefix(base, "append(") {
+								return "", fmt.Errorf("last element of %s is addressed although nothing was appended in this arm (the list may be empty: index out of range)", base)
+							}
 							return "last(" + base + ")", nil
 						}
 					}
@@ -278,7 +282,11 @@ func (w *decWalker) term(x ast.Expr) (string, error) {
 						return "", err
 					}
 					if w.atStart && w.lenTerm != "" && (n == w.lenTerm || "int("+n+")" == w.lenTerm) {
-						n = "len(bytes)" // the length the payload end was computed from (equal on 64-bit targets once the >= 0 guard passed)
+						if n != w.lenTerm {
+							// make([]byte, L) with L uint64 while every guard is on int(L): equal on 64-bit targets only
+							w.alloc32 = append(w.alloc32, types.ExprString(t.Args[1]))
+						}
+						n = "len(bytes)" // the length the payload end was computed from
 					}
 					tn := tname(info.TypeOf(t.Args[0]))
 					if len(t.Args) == 3 {
@@ -705,17 +713,20 @@ func (w *decWalker) ifStmt(t *ast.IfStmt, list []ast.Stmt, i *int) error {
 		c := ast.Unparen(t.Cond)
 		if be, ok := c.(*ast.BinaryExpr); ok {
 			switch {
-			case be.Op == token.LSS && isZero(info, be.Y): // len < 0, postIndex < 0
-				return nil
-			case be.Op == token.GTR && w.is(be.Y, w.lVar): // postIndex > l, (idx+8) > l
-				if w.is(be.X, w.post) {
-					return nil
+			case be.Op == token.LSS && isZero(info, be.Y): // L < 0 : must be followed by post := idx + L (checked there)
+				if *i+1 < len(list) {
+					if as, ok := list[*i+1].(*ast.AssignStmt); ok && as.Tok == token.DEFINE && len(as.Rhs) == 1 {
+						if b2, ok := ast.Unparen(as.Rhs[0]).(*ast.BinaryExpr); ok && b2.Op == token.ADD && w.is(b2.X, w.idx) && types.ExprString(b2.Y) == types.ExprString(be.X) {
+							return nil
+						}
+					}
 				}
+				return und("guard %s is not followed by the payload-end computation", nodeStr(t.Cond))
+			case be.Op == token.GTR && w.is(be.Y, w.lVar): // (idx+k) > l
 				if k, ok := w.idxPlus(be.X); ok {
 					// fixed read must follow
 					return w.fixedRead(k, list, i)
 				}
-				return nil
 			}
 		}
 		return und("guard %s", nodeStr(t.Cond))
@@ -850,9 +861,41 @@ func (w *decWalker) assign(t *ast.AssignStmt, list []ast.Stmt, i *int) error {
 	if t.Tok == token.DEFINE {
 		if be, ok := ast.Unparen(t.Rhs[0]).(*ast.BinaryExpr); ok && be.Op == token.ADD && w.is(be.X, w.idx) {
 			if lt, err := w.term(be.Y); err == nil {
+				postObj := info.ObjectOf(t.Lhs[0].(*ast.Ident))
+				// BND.delimited: `if L < 0 {ret}` before, `if post < 0 {ret}` and `if post > l {ret}` after
+				okPre := false
+				if *i > 0 {
+					if g, ok := list[*i-1].(*ast.IfStmt); ok && g.Else == nil && w.isErrRet(g.Body) {
+						if c, ok := ast.Unparen(g.Cond).(*ast.BinaryExpr); ok && c.Op == token.LSS && isZero(info, c.Y) && types.ExprString(c.X) == types.ExprString(be.Y) {
+							okPre = true
+						}
+					}
+				}
+				if !okPre {
+					return fmt.Errorf("payload end %s = cursor + %s is computed without the preceding `if %s < 0 { return error }` guard: a negative length moves the cursor backwards", postObj.Name(), types.ExprString(be.Y), types.ExprString(be.Y))
+				}
+				if st := info.TypeOf(be.Y); st == nil || basicKind(st) != types.Int {
+					return und("length operand %s is not an int", types.ExprString(be.Y))
+				}
+				okPost := *i+2 < len(list)
+				if okPost {
+					g1, ok1 := list[*i+1].(*ast.IfStmt)
+					g2, ok2 := list[*i+2].(*ast.IfStmt)
+					okPost = ok1 && ok2 && g1.Else == nil && g2.Else == nil && w.isErrRet(g1.Body) && w.isErrRet(g2.Body)
+					if okPost {
+						c1, a := ast.Unparen(g1.Cond).(*ast.BinaryExpr)
+						c2, b := ast.Unparen(g2.Cond).(*ast.BinaryExpr)
+						okPost = a && b && c1.Op == token.LSS && isZero(info, c1.Y) && w.is(c1.X, postObj) &&
+							c2.Op == token.GTR && w.is(c2.X, postObj) && w.is(c2.Y, w.lVar)
+					}
+				}
+				if !okPost {
+					return fmt.Errorf("payload end %s is not followed by `if %s < 0 { return error }` (overflow) and `if %s > l { return error }` (truncated input): the slice dAtA[iNdEx:%s] can be out of range", postObj.Name(), postObj.Name(), postObj.Name(), postObj.Name())
+				}
 				w.lenTerm = lt
-				w.post = info.ObjectOf(t.Lhs[0].(*ast.Ident))
+				w.post = postObj
 				w.atStart = true
+				*i += 2
 				return nil
 			}
 		}
@@ -1065,6 +1108,30 @@ func dropInner(eff []string) []string {
 	return out
 }
 
+// skipGuards checks `if (sk < 0) || (idx+sk) < 0 {ret}` and `if (idx+sk) > bound {ret}`.
+func (w *decWalker) skipGuards(g1s, g2s ast.Stmt, sk, bound types.Object) bool {
+	g1, ok1 := g1s.(*ast.IfStmt)
+	g2, ok2 := g2s.(*ast.IfStmt)
+	if !ok1 || !ok2 || g1.Else != nil || g2.Else != nil || !w.isErrRet(g1.Body) || !w.isErrRet(g2.Body) {
+		return false
+	}
+	sum := func(x ast.Expr) bool {
+		be, ok := ast.Unparen(x).(*ast.BinaryExpr)
+		return ok && be.Op == token.ADD && w.is(be.X, w.idx) && w.is(be.Y, sk)
+	}
+	or, ok := ast.Unparen(g1.Cond).(*ast.BinaryExpr)
+	if !ok || or.Op != token.LOR {
+		return false
+	}
+	a, okA := ast.Unparen(or.X).(*ast.BinaryExpr)
+	b, okB := ast.Unparen(or.Y).(*ast.BinaryExpr)
+	if !okA || !okB || a.Op != token.LSS || b.Op != token.LSS || !isZero(w.info, a.Y) || !isZero(w.info, b.Y) || !w.is(a.X, sk) || !sum(b.X) {
+		return false
+	}
+	c, ok := ast.Unparen(g2.Cond).(*ast.BinaryExpr)
+	return ok && c.Op == token.GTR && sum(c.X) && w.is(c.Y, bound)
+}
+
 // skipBlock: idx = entryPre; skippy, err := runtime.Skip(dAtA[idx:]); guards; idx += skippy
 func (w *decWalker) skipBlock(list []ast.Stmt, pre, bound types.Object) bool {
 	info := w.info
@@ -1088,16 +1155,11 @@ func (w *decWalker) skipBlock(list []ast.Stmt, pre, bound types.Object) bool {
 		return false
 	}
 	sk := info.ObjectOf(a1.Lhs[0].(*ast.Ident))
-	for _, s := range list[2:5] {
-		is, ok := s.(*ast.IfStmt)
-		if !ok || !w.isErrRet(is.Body) {
-			return false
-		}
+	g0, ok := list[2].(*ast.IfStmt)
+	if !ok || !w.isErrRet(g0.Body) || types.ExprString(g0.Cond) != info.ObjectOf(a1.Lhs[1].(*ast.Ident)).Name()+" != nil" {
+		return false
 	}
-	// third guard: (idx + skippy) > bound
-	g := list[4].(*ast.IfStmt)
-	be, ok := ast.Unparen(g.Cond).(*ast.BinaryExpr)
-	if !ok || be.Op != token.GTR || !w.is(be.Y, bound) {
+	if !w.skipGuards(list[3], list[4], sk, bound) {
 		return false
 	}
 	adv, ok := list[5].(*ast.AssignStmt)
@@ -1404,11 +1466,8 @@ func (w *decWalker) unknownArm(cc *ast.CaseClause) *unkSummary {
 	if !ok || !w.isErrRet(g0.Body) || types.ExprString(g0.Cond) != errV.Name()+" != nil" {
 		return bad("error of runtime.Skip is not returned")
 	}
-	for _, s := range b[3:5] {
-		is, ok := s.(*ast.IfStmt)
-		if !ok || !w.isErrRet(is.Body) {
-			return bad("default arm: length guards")
-		}
+	if !w.skipGuards(b[3], b[4], sk, w.lVar) {
+		return bad("default arm lacks the guards `if skippy < 0 || iNdEx+skippy < 0 { return error }` and `if iNdEx+skippy > l { return error }`: the slice dAtA[iNdEx:iNdEx+skippy] can be out of range")
 	}
 	// if !options.DiscardUnknown { x.unknownFields = append(x.unknownFields, dAtA[idx:idx+skippy]...) }
 	cnd, ok := b[5].(*ast.IfStmt)
